@@ -487,6 +487,11 @@ func init() {
 						continue
 					}
 					path = scale60(append(path, ring[j]))
+					if c.rng.Intn(3) == 0 && outClosed(ring[st]) && outClosed(ring[(st+2)%k]) {
+						// ... or no vertex inside at all: a single edge from outside to outside (the open "ring" of two vertices
+						// of the package's own example), which crosses the box or passes it by
+						path = scale60([][2]int{ring[st], ring[(st+2)%k]})
+					}
 					oo := orb.CCW
 					if o < 0 {
 						oo = orb.CW
@@ -563,6 +568,39 @@ func init() {
 			} else {
 				c16Smart(c, []string{"MultiPolygon", "Geometry"}[c.rng.Intn(2)], box, in, o)
 			}
+		}
+		// (3b) a hole that cuts a corner off the box without having a vertex in it: a band across the box (its long sides
+		// outside or inside, its short sides outside) with a triangular hole whose three vertices lie outside the box and
+		// whose long edge crosses two adjacent sides. Turned to all four corners, both windings, every entry point.
+		for i := 0; i < c.pick(300, 6000); i++ {
+			a, b := 1+c.rng.Intn(2), 1+c.rng.Intn(2)
+			// figure space in units of 1/60: box (2,2)-(6,6), band (0,1)-(8,5), hole (6-a,1.5),(7,1.5),(7,2+b)
+			outer := [][2]int{{0, 60}, {480, 60}, {480, 300}, {0, 300}}
+			hole := [][2]int{{(6 - a) * 60, 90}, {420, 90}, {420, (2 + b) * 60}}
+			rot := c.rng.Intn(4)
+			turn := func(p [2]int) [2]int {
+				x, y := p[0]-240, p[1]-240
+				switch rot {
+				case 1:
+					x, y = -y, x
+				case 2:
+					x, y = -x, -y
+				case 3:
+					x, y = y, -x
+				}
+				return [2]int{x + 240, y + 240}
+			}
+			var ro, rh [][2]int
+			for _, p := range outer {
+				ro = append(ro, turn(p))
+			}
+			for _, p := range hole {
+				rh = append(rh, turn(p))
+			}
+			o := 1 - 2*c.rng.Intn(2)
+			poly := [][][2]int{closed(orient(ro, o)), closed(orient(rh, -o))}
+			c16Unclosed, c16AsCollection = false, c.rng.Intn(4) == 0
+			c16Smart(c, []string{"MultiPolygon", "Geometry", "Polygon", "MultiPolygon"}[c.rng.Intn(4)], [4]int{120, 120, 360, 360}, [][][][2]int{poly}, o)
 		}
 		// (4) combs at mixed scales: a rectangle around the box with one or two slits cut into it from one side, the slits
 		// ending inside the box or running right through it. All edges are parallel to the axes, so the figure is handed
